@@ -24,7 +24,7 @@ def pull_op(rng, ln, allow_buf=True, allow_comp=True):
     if r < 0.40:
         return [{"op": "nextid"}]
     if r < 0.62:
-        st = {"op": "chunk", "n": n}
+        st = {"op": "chunk", "n": 0 if rng.random() < 0.06 else n}     # a one-shot pull of size zero is legal
         if rng.random() < 0.35:
             st["take"] = rng.randrange(0, n + 1)
         return [st]
@@ -146,4 +146,41 @@ def composite(rng, sid, kind, ln=None):
         sc["start"] = rng.choice([0, 3])
     if kind in TICKET_KINDS:
         sc["hint"] = rng.choice(["exact", "inexact", "unbounded"])
+    return sc
+
+
+def multi(rng, sid, kind, ln=None):
+    """C19: several iterators over one collection and clones created at arbitrary points, interleaved
+    operation histories (sequential, owner thread)."""
+    if ln is None:
+        ln = rng.choice(ARRAY_LENS) if kind == "arrref" else rng.randrange(0, 7)
+    alive = [0]
+    nits = 1
+    ops = []
+    for _ in range(rng.randrange(2, 9)):
+        r = rng.random()
+        it = rng.choice(alive) if alive else None
+        if it is None:
+            break
+        if r < 0.25 and nits < 4:
+            ops.append({"op": "clone", "it": it})
+            alive.append(nits)
+            nits += 1
+        elif r < 0.33 and len(alive) > 1:
+            st = {"op": rng.choice(["intoseq", "drop"]), "it": it}
+            ops.append(st)
+            alive.remove(it)
+        else:
+            for o in (query_op(rng) if rng.random() < 0.2 else
+                      ([{"op": "skip"}] if rng.random() < 0.08 else pull_op(rng, ln, allow_buf=False))):
+                o = dict(o)
+                o["it"] = it
+                ops.append(o)
+    post = []
+    for it in alive:
+        if rng.random() < 0.6:
+            post.append({"op": "intoseq", "it": it})
+    sc = {"id": sid, "kind": kind, "len": ln, "threads": [], "pre": ops, "post": post}
+    if kind in ("range", "rangeref"):
+        sc["start"] = rng.choice([0, 2, 9])
     return sc
